@@ -18,6 +18,8 @@ import fusion
 import rasters
 
 MODELS = ['gain', 'gain-blk-offset', 'gain-offset']
+OUTS = [None, dict(dtype='uint16', nodata=65535), None, dict(dtype='int16', nodata=-32768), dict(dtype='float32', nodata=-9999.0),
+        dict(dtype='uint8', nodata=0)]
 
 
 def encodings(dtype):
@@ -65,7 +67,9 @@ def gen_case(run, i):
     nb = rng.choice([1, 3]) if dtype != 'float32' else rng.choice([1, 2])
     return dict(i=i, family=family, proc=proc, src=src.to_dict(), ref=ref.to_dict(), model=model, dtype=dtype, nb=nb,
                 kernel=rng.choice([(1, 1), (3, 3), (3, 5), (5, 5)]) if model != 'gain-offset' else rng.choice([(3, 3), (5, 3), (5, 5)]),
-                halvings=rng.choice([0, 2, 3, 4]), threads=rng.choice([1, 2]), thresh=rng.choice([0.25, None]))
+                halvings=rng.choice([0, 2, 3, 4]), threads=rng.choice([1, 2]), thresh=rng.choice([0.25, None]),
+                # output encoding: default float32/NaN, integer types with a non-zero nodata value, float with numeric nodata
+                out=OUTS[(i // 2 + i // 6) % len(OUTS)])
 
 
 def holes(rng, h, w):
@@ -115,7 +119,7 @@ def run(run: common.Run):
                 res, hv = fusion.run_fuse_blocks(
                     case['halvings'], src, ref, proc_ref, sp, rp, tmp / f'c08_o{k}.tif', model=case['model'],
                     kernel_shape=case['kernel'], proc_crs=case['proc'], param=True, threads=case['threads'],
-                    model_config=dict(r2_inpaint_thresh=case['thresh']))
+                    model_config=dict(r2_inpaint_thresh=case['thresh']), out_profile=case['out'])
                 with warnings.catch_warnings():
                     warnings.simplefilter('ignore')
                     with RasterCompare(sp, rp, proc_crs=case['proc']) as cmp:
@@ -128,6 +132,7 @@ def run(run: common.Run):
                 break
             run.evaluations += 1
             run.hist[f'src encoding={enc_s}'] += 1
+            run.hist[f"output={'default' if not case['out'] else case['out']['dtype'] + '/' + str(case['out']['nodata'])}"] += 1
             run.hist[f"model={case['model']} proc={res.proc_crs}"] += 1
             cur = (res.corr, res.corr_mask, res.param, res.param_masks,
                    {k_: (v['n'], np.float64(v['r2']).tobytes(), np.float64(v['rmse']).tobytes()) for k_, v in stats.items()})
